@@ -160,12 +160,12 @@ PROPS = {
         'title': 'Decoding and re-encoding never panic, hang or fail on arbitrary bytes',
     },
     'C02': {
-        'families': [('kt', ['KT']), ('fr_enc', ['FR-F5']), ('fr', ['FR-F2'])],
+        'families': [('kt', ['KT']), ('fr_enc', ['FR-F5']), ('fr', ['FR-F2']), ('dg', ['DG-D6'])],
         'floors': {'KT-K1': 33, 'KT-K2': 30, 'KT-K3': 30, 'KT-K4': 20, 'KT-K7': 6, 'FR-F5': 10},
         'title': 'Decode -> encode -> decode returns the same map',
     },
     'C03': {
-        'families': [('kv', ['KV']), ('kt', ['KT-K1', 'KT-K2', 'KT-K3', 'KT-K7']), ('dg', ['DG-D1', 'DG-D2', 'DG-D3']),
+        'families': [('kv', ['KV']), ('kt', ['KT-K1', 'KT-K2', 'KT-K3', 'KT-K7', 'KT-K11']), ('dg', ['DG-D1', 'DG-D2', 'DG-D3', 'DG-D6']),
                      ('sc', ['SC-C11']), ('nf', ['NF'])],
         'floors': {'KV': 15, 'KT-K1': 33, 'KT-K2': 30, 'KT-K7': 6, 'SC-C11': 32, 'NF': 15},
         'title': 'Edits to a decoded map survive encode -> decode',
@@ -217,12 +217,12 @@ PROPS = {
     },
     'C14': {
         'families': [('sc', ['SC-C14']), ('ss14', ['SS-C14']), ('ab', ['AB'])],
-        'floors': {'SC-C14': 31, 'SS-C14': 8},
+        'floors': {'SC-C14': 32, 'SS-C14': 8},
         'title': 'Hit-object lines decode per the legacy grammar',
     },
     'C15': {
         'families': [('sc', ['SC-C15']), ('ss15', ['SS-C15'])],
-        'floors': {'SC-C15': 15, 'SS-C15': 4},
+        'floors': {'SC-C15': 16, 'SS-C15': 4},
         'title': 'Map-level processing of hit objects: order, combos, velocity, sample defaults',
     },
     'C19': {
